@@ -12,7 +12,9 @@ var c03Schemes = []string{"http", "https", "HTTP", "hTTps"}
 var c03Hosts = []string{"a.test", "A.Test", "a.test.", "b.test", "127.0.0.1", "[::1]", "[::1:8080]", "[0:0:0:0:0:0:0:1]", "[::ffff:1.2.3.4]", "[2001:db8::8080]", "[2001:db8::]", "xn--bcher-kva.test", "a%2Etest",
 	// host names with bytes outside ASCII (a Go client can express them): not UTF-8, the
 	// replacement character, and a neighbour
-	"caf\xe9.test", "caf\xef\xbf\xbd.test", "caf\xe8.test"}
+	"caf\xe9.test", "caf\xef\xbf\xbd.test", "caf\xe8.test",
+	// link-local literals with a zone identifier (RFC 6874)
+	"[fe80::1%25eth0]", "[fe80::1%25eth1]", "[fe80::1]"}
 var c03Ports = []string{"", "", ":", ":80", ":443", ":8080", ":080", ":8443", ":0"}
 var c03Segs = []string{"a", "A", ".", "..", "%2e", "%2E", "%41", "%61", "~", "%7E", "%7e", "%2F", "%2f", "%20", "é", "%C3%A9", "%c3%a9", "%E9", "%e9", ";p", "a;p=1", ":", "@", "b", "", "%25", "%2541", "+", "%2B", "%00", "*", "%", "\xe9", "\xe8", "\xef\xbf\xbd",
 	// ordinary segments that merely begin or end like dot segments
